@@ -475,7 +475,9 @@ class RaftNode(Entity):
                 "term": self._current_term,
                 "success": True,
                 "from": self.name,
-                "match_index": self._log.last_index,
+                # Only the prefix checked against this request is known to match the
+                # leader's log; entries we may hold beyond it are not.
+                "match_index": prev_log_index + len(entries),
             },
             daemon=True,
         )
